@@ -368,8 +368,37 @@ pub fn run_main(o: &RunOpts) -> i32 {
         merged.violation(v);
     }
 
-    // post-merge analysis hooks (a check may add sanitizer slices etc.)
+    // post-merge analysis hooks
     check.finish(o, &mut merged, &mut inconclusive);
+    // sanitizer slices are run by /verif/check before the main run; their verdicts arrive here
+    {
+        let p = wd.join("sanitizers.json");
+        if let Ok(s) = fs::read_to_string(&p) {
+            if let Ok(Value::Array(arr)) = serde_json::from_str::<Value>(&s) {
+                for e in arr {
+                    merged.sanitizer.push(e.clone());
+                    let tool = e["tool"].as_str().unwrap_or("?").to_string();
+                    match e["verdict"].as_str().unwrap_or("") {
+                        "report" => {
+                            let mut case = Case::new(&o.id, "group", 0, 0, crate::sys::PK::None);
+                            case.aux = e.clone();
+                            merged.violation(Viol {
+                                prop: o.id.clone(),
+                                clause: "sanitizer".into(),
+                                op: tool.clone(),
+                                bucket: e["first_frame"].as_str().unwrap_or("").to_string(),
+                                detail: format!("{} reported: {}", tool, e["summary"].as_str().unwrap_or("")),
+                                case,
+                            });
+                        }
+                        "clean" => {}
+                        other => inconclusive.push(format!("sanitizer slice {} inconclusive: {} {}", tool, other, e["summary"].as_str().unwrap_or(""))),
+                    }
+                }
+            }
+            let _ = fs::remove_file(&p);
+        }
+    }
 
     // required coverage => otherwise inconclusive
     for req in check.required(o.tier) {
